@@ -114,6 +114,12 @@ func (db *Backend) ListBucket(name string, prefix *gofakes3.Prefix, page gofakes
 			if match.MatchedPart == lastMatchedPart {
 				continue // Should not count towards keys
 			}
+			if match.MatchedPart == page.Marker {
+				// The previous page ended with this common prefix (see
+				// NextMarker below); the rest of its keys must not
+				// report it a second time.
+				continue
+			}
 			response.AddPrefix(match.MatchedPart)
 			lastMatchedPart = match.MatchedPart
 		default:
@@ -128,6 +134,11 @@ func (db *Backend) ListBucket(name string, prefix *gofakes3.Prefix, page gofakes
 		cnt++
 		if page.MaxKeys > 0 && cnt >= page.MaxKeys {
 			response.NextMarker = item.data.name
+			if match.CommonPrefix {
+				// Like S3, continue after the whole common prefix rather than
+				// after the first key inside it:
+				response.NextMarker = match.MatchedPart
+			}
 			response.IsTruncated = iter.Next()
 			break
 		}
